@@ -413,7 +413,8 @@ fn arb_reply_for(req: ReqSpec) -> BoxedStrategy<Vec<u8>> {
             genuine_reply(&valid, &b, &r)
         }
     });
-    let mutated = (genuine.clone(), 0u8..12, any::<u8>(), any::<prop::sample::Index>(), 0u8..8, 1usize..=3)
+    let is_read = valid.kind().is_read();
+    let mutated = (genuine.clone(), 0u8..15, any::<u8>(), any::<prop::sample::Index>(), 0u8..8, 1usize..=3)
         .prop_map(move |(mut p, m, byte, idx, bit, k)| {
             match m {
                 // function code replaced
@@ -441,6 +442,28 @@ fn arb_reply_for(req: ReqSpec) -> BoxedStrategy<Vec<u8>> {
                 8 => {
                     if p.len() > 1 {
                         p[1] = p[1].wrapping_add(k as u8);
+                    }
+                }
+                // length and byte-count field changed together: the well-formed reply to a
+                // request for more / fewer points than were asked for
+                12 | 13 => {
+                    if is_read && p.len() > 1 {
+                        let step = if fc == 3 || fc == 4 { 2 * k } else { k };
+                        if (p[1] as usize) + step <= 250 {
+                            for _ in 0..step {
+                                p.push(byte);
+                            }
+                            p[1] += step as u8;
+                        }
+                    }
+                }
+                14 => {
+                    if is_read && p.len() > 1 {
+                        let step = if fc == 3 || fc == 4 { 2 * k } else { k };
+                        if (p[1] as usize) > step {
+                            p.truncate(p.len() - step);
+                            p[1] -= step as u8;
+                        }
                     }
                 }
                 // coil echo value that is neither 0 nor FF00
@@ -1965,5 +1988,188 @@ pub fn check_c12_conn(case: &C12Conn) -> CaseResult {
         return Err(format!("{}: the request after the limit was reached completed with {:?}", describe, last));
     }
     ok.nontrivial = true;
+    Ok(ok)
+}
+
+// ---------------------------------------------------------------------------------------------
+// C05 / C10: a connection lost in the middle of a reply leaves nothing behind for the next one
+
+/// The first connection delivers only the first `cut` bytes of a reply and then ends (peer
+/// closes, read error, disable + enable, timeout limit); the channel reconnects and the peer
+/// answers every request genuinely: all of them must succeed with the reply's values.
+#[derive(Clone, Debug, PartialEq, Eq, Hash, Serialize, Deserialize)]
+pub struct MidFrameCase {
+    pub framing: Fr,
+    pub cut: u16,
+    /// 0 = peer closes, 1 = read error, 2 = disable then enable, 3 = timeout limit of 1
+    pub how: u8,
+    pub req: ReqSpec,
+    pub after: Vec<ReqSpec>,
+    pub select_seed: u64,
+}
+
+pub fn arb_mid_frame() -> BoxedStrategy<MidFrameCase> {
+    (
+        arb_fr(),
+        prop_oneof![3 => 1u16..=12, 1 => 1u16..=200],
+        0u8..4,
+        arb_valid_req(),
+        vec(arb_valid_req(), 1..4),
+        any::<u64>(),
+    )
+        .prop_map(|(framing, cut, how, req, after, select_seed)| MidFrameCase {
+            framing,
+            cut,
+            how,
+            req,
+            after,
+            select_seed,
+        })
+        .boxed()
+}
+
+pub fn check_mid_frame(case: &MidFrameCase) -> CaseResult {
+    let genuine = |seed: u64| PeerAct::Frame {
+        delay_ms: 1,
+        tx: TxSel::Echo,
+        pdu: PduSel::Genuine(seed),
+        split: None,
+    };
+    let mut ops = vec![
+        COp::Submit {
+            id: 0,
+            style: Style::Future,
+            handle: 0,
+            unit: 1,
+            timeout_ms: 20,
+            req: case.req.clone(),
+        },
+        COp::Advance(25),
+    ];
+    match case.how {
+        0 => ops.push(COp::PeerEof),
+        1 => ops.push(COp::PeerErr(IoKind::ALL[(case.select_seed % IoKind::ALL.len() as u64) as usize])),
+        2 => {
+            ops.push(COp::Disable(0));
+            ops.push(COp::Advance(1));
+            ops.push(COp::Enable(0));
+        }
+        _ => {}
+    }
+    ops.push(COp::Advance(10));
+    for (i, r) in case.after.iter().enumerate() {
+        ops.push(COp::Submit {
+            id: 1 + i,
+            style: Style::Future,
+            handle: 0,
+            unit: 1,
+            timeout_ms: 50,
+            req: r.clone(),
+        });
+        ops.push(COp::Advance(5));
+    }
+    ops.push(COp::Advance(100));
+    // the first request of a fresh channel carries transaction id 0
+    let first_frame = {
+        let valid = case.req.to_valid().expect("valid request");
+        let (b, r) = genuine_values(5);
+        frame_reply(case.framing, 0, 1, &genuine_reply(&valid, &b, &r))
+    };
+    let first_len = first_frame.len();
+    let run = run_client(&CliCase {
+        cfg: CliConfig {
+            framing: case.framing,
+            decode: Decode::NOTHING,
+            max_timeouts: if case.how == 3 { Some(1) } else { None },
+            queue: 16,
+            retry_ms: 5,
+        },
+        conns: vec![
+            ConnPlan {
+                peer: PeerPlan {
+                    // the first bytes of the genuine reply; the rest never arrives
+                    per_request: vec![vec![PeerAct::Raw {
+                        delay_ms: 1,
+                        bytes: first_frame[..(case.cut as usize).min(first_frame.len())].to_vec(),
+                    }]],
+                    default: vec![],
+                },
+                fail_write_at: None,
+                write_stall: None,
+                unsolicited: vec![],
+            },
+            ConnPlan {
+                peer: PeerPlan {
+                    per_request: vec![],
+                    default: vec![genuine(9)],
+                },
+                fail_write_at: None,
+                write_stall: None,
+                unsolicited: vec![],
+            },
+        ],
+        ops,
+        select_seed: case.select_seed,
+        pre_enable: true,
+    });
+    let mut ok = CaseOk::new();
+    if std::env::var("VERIF_DEBUG").is_ok() {
+        eprintln!("events {:?}", run.events);
+        for p in &run.peers {
+            eprintln!("peer requests {:?} sent {:?}", p.requests, p.sent);
+        }
+        eprintln!("completions {:?}", run.ledger.completions);
+    }
+    ok.label(match case.how {
+        0 => "first_connection_ends_by:peer_close",
+        1 => "first_connection_ends_by:read_error",
+        2 => "first_connection_ends_by:disable_enable",
+        _ => "first_connection_ends_by:timeout_limit",
+    });
+    let partial = (case.cut as usize) < first_len && case.cut > 0;
+    if partial {
+        ok.label("reply_cut_short");
+        if case.framing == Fr::Mbap && case.cut >= 7 {
+            ok.label("header_complete_body_cut");
+        }
+    }
+    if !partial {
+        // the whole reply arrived: an ordinary exchange, nothing to judge here
+        ok.label("reply_complete");
+        return Ok(ok);
+    }
+    let r0 = run.ledger.completions.iter().find(|c| c.id == 0).map(|c| c.res.clone());
+    if partial && !matches!(r0, Some(Res::ResponseTimeout)) {
+        return Err(format!("request 0, of whose reply only {} bytes arrived, completed with {:?}", case.cut, r0));
+    }
+    // everything on the second connection is answered genuinely
+    let second = run.peers.get(1);
+    for (i, _) in case.after.iter().enumerate() {
+        let r = run.ledger.completions.iter().find(|c| c.id == 1 + i).map(|c| c.res.clone());
+        let transmitted_on_second = second.map(|p| p.requests.len() > i).unwrap_or(false);
+        match r {
+            Some(Res::Ok(_)) => {}
+            Some(Res::NoConnection) if !transmitted_on_second => {
+                // submitted before the reconnect was complete: nothing to judge
+                ok.label("submitted_before_reconnect");
+            }
+            other => {
+                return Err(format!(
+                    "the first connection delivered {} of {} bytes of a reply and ended by {}; request no. {} on the next connection, answered genuinely, completed with {:?}",
+                    case.cut.min(first_len as u16),
+                    first_len,
+                    match case.how {
+                        0 => "the peer closing it",
+                        1 => "a read error",
+                        2 => "disable + enable",
+                        _ => "the timeout limit",
+                    },
+                    i + 1,
+                    other
+                ))
+            }
+        }
+    }
+    ok.nontrivial = partial;
     Ok(ok)
 }
